@@ -26,8 +26,22 @@ def protocol_units(tier):
     return out
 
 
+VALIDATORS = ["goodwe.modbus.validate_modbus_rtu_response", "goodwe.modbus.validate_modbus_tcp_response",
+              "goodwe.protocol.Aa55ProtocolCommand._validate_aa55_response"]
+
+
+def binding_units(tier):
+    """the validator each command class carries, on the command built by its real constructor (C01; its raises-only
+    clause is also what the transport state machine assumes of `command.validator`)"""
+    from pyvc.protocol_harness import BINDING_CLASSES
+    return [("script", SIDECARS, H, "command_binding", f"binding:{c}", ("C01", "C04"), tier, {"clsname": c})
+            for c in BINDING_CLASSES]
+
+
 def units(tier):
-    return protocol_units(tier)
+    # the segments model the validator of the command in flight by its proved outcomes; the obligations that justify
+    # it (validators and the commands' bindings raise nothing else) are part of this property's check
+    return protocol_units(tier) + contract_units(SIDECARS, VALIDATORS, tier) + binding_units(tier)
 
 
 replay = replay_protocol
